@@ -3,6 +3,7 @@ import Driver.HKmer
 import Driver.HTuple
 import Driver.HSegment
 import Driver.HQueue
+import Driver.HContainer
 /-!
 `ragc_model`: executes the Lean models behind a one-line-in / one-line-out protocol.
 Every handler returns `none` for a request it does not understand; the reply is then `bad-op`.
@@ -10,7 +11,7 @@ Every handler returns `none` for a request it does not understand; the reply is 
 namespace Driver
 
 def handlers : List (List String → Option String) :=
-  [handleKmer, handleTuple, handleSegment, handleQueue]
+  [handleKmer, handleTuple, handleSegment, handleQueue, handleContainer]
 
 def dispatch (line : String) : String :=
   let fields := line.trimAscii.toString.splitOn " "
